@@ -156,7 +156,9 @@ def run(ctx):
     # ---- R17.8 (F-X): the file-role classifier and the builder agree on what "modified by somebody else" means
     ctx.rule("R17.8", "File::is_source decides 'still as redo left it' with the builder's own override test (Stamp::detect_override on the recorded stamp and a fresh read_stamp) - sibling agreement: a stamp difference that the builder does not call an override (mode, owner, inode) and rebuilds through must not turn the target into a source for redo-ood / redo-targets")
     IS = prog.one(r"state::File::is_source")
-    fam = [IS] + [b for b in prog.bodies.values() if b.key.startswith(IS.key + "::{closure")]
+    # closures built in is_source - its own, and those of helper predicates written out of it and spliced back in
+    fam = [IS] + [prog.bodies[dk] for (_, _, _, dk, _) in closure_sites(IS) if dk in prog.bodies]
+    fam += [b for b in prog.bodies.values() if b.key.startswith(IS.key + "::{closure") and b not in fam]
     sites = [(b, i) for b in fam for i in BA.of(b).calls(r"state::Stamp::detect_override")]
     reads = BA.of(IS).calls(r"state::File::read_stamp")
     ok = bool(sites) and bool(reads)
@@ -288,6 +290,8 @@ def _return_parities(prog, body, bb, src_rx):
             elif rv["k"] == "agg" and rv.get("adt") in ("core::result::Result", "core::option::Option") and rv.get("variant") in ("Ok", "Some") and len(rv["ops"]) == 1 \
                     and op_place(rv["ops"][0]) is not None and not op_place(rv["ops"][0])["p"]:
                 todo.append((("local", op_local(rv["ops"][0])), par))
+            elif rv["k"] == "agg" and rv.get("adt") == "core::result::Result" and rv.get("variant") == "Err":
+                pass        # an error handed on by an explicit `Err(e) => Err(e)` is no verdict either
             else:
                 out.add("other")
             continue
